@@ -11,5 +11,7 @@ namespace Sopht
 def ratTransc : Transc ℚ where
   sin := fun q => (Float.sin q.toFloat).toRat0
   pi := (3.141592653589793 : Float).toRat0
+  cos := fun q => (Float.cos q.toFloat).toRat0
+  sqrt := fun q => (Float.sqrt q.toFloat).toRat0
 
 end Sopht
